@@ -53,28 +53,48 @@ inductive EvOp where
   | create | delete
   deriving Repr, BEq, DecidableEq, Inhabited
 
+/-- where a change event comes from: `lyd_new_implicit` and `lyd_validate_cases` hand a failure of `lyd_val_diff_add` on
+(`LY_CHECK_RET`), `lyd_validate_autodel_node_del` ignores it -/
+inductive EvSrc where
+  | implicit | cases | autodel
+  deriving Repr, BEq, DecidableEq, Inhabited
+
 /-- one call of `lyd_val_diff_add(node, op, diff)` -/
 structure Ev where
   op : EvOp
   /-- the ancestors of the node at that moment, outermost first (flags as they were; children dropped, list keys kept) -/
   anc : List DNode
   node : DNode
-  /-- `yang:key` / `yang:value` / `yang:position` of a user-ordered create -/
+  /-- `yang:key` / `yang:value` / `yang:position` of a user-ordered create (the `orig-` ones of a delete in the repaired code) -/
   anchor : Option (String × Bytes) := none
+  src : EvSrc := .autodel
+  deriving Repr, Inhabited
+
+/-- what a phase leaves behind, in the order it happened: change events and logged errors -/
+inductive Item where
+  | ev (e : Ev)
+  | err (e : VErr)
   deriving Repr, Inhabited
 
 structure Out where
-  evs : List Ev := []
-  errs : List VErr := []
+  items : List Item := []
   deriving Repr, Inhabited
 
-instance : Append Out := ⟨fun a b => { evs := a.evs ++ b.evs, errs := a.errs ++ b.errs }⟩
+instance : Append Out := ⟨fun a b => { items := a.items ++ b.items }⟩
 
-def Out.err (k : EKind) (path : Bytes) : Out := { errs := [{ kind := k, path := path }] }
-def Out.ofEvs (evs : List Ev) : Out := { evs := evs }
+def Out.evs (o : Out) : List Ev := o.items.filterMap fun | .ev e => some e | .err _ => none
+def Out.errs (o : Out) : List VErr := o.items.filterMap fun | .err e => some e | .ev _ => none
 
-@[simp] theorem Out.append_errs (a b : Out) : (a ++ b).errs = a.errs ++ b.errs := rfl
-@[simp] theorem Out.append_evs (a b : Out) : (a ++ b).evs = a.evs ++ b.evs := rfl
+def Out.err (k : EKind) (path : Bytes) : Out := { items := [.err { kind := k, path := path }] }
+def Out.ofEvs (evs : List Ev) : Out := { items := evs.map .ev }
+
+@[simp] theorem Out.append_items (a b : Out) : (a ++ b).items = a.items ++ b.items := rfl
+@[simp] theorem Out.append_errs (a b : Out) : (a ++ b).errs = a.errs ++ b.errs := by
+  simp [Out.errs, List.filterMap_append]
+@[simp] theorem Out.append_evs (a b : Out) : (a ++ b).evs = a.evs ++ b.evs := by
+  simp [Out.evs, List.filterMap_append]
+@[simp] theorem Out.empty_errs : ({} : Out).errs = [] := rfl
+@[simp] theorem Out.empty_evs : ({} : Out).evs = [] := rfl
 
 /-! ## where we are in the data tree -/
 
